@@ -253,7 +253,32 @@ func (g *Gen) selection(groups map[uint32][]uint32) (s SOpts, v VOpts, covered [
 	r := g.r
 	s = g.signKeys()
 	gs := sortedGroups(groups)
-	switch r.Intn(4) {
+	k := r.Intn(4)
+	if len(gs) >= 2 && r.Chance(1, 5) {
+		k = 4
+	}
+	switch k {
+	case 4: // chosen objects of several groups in one request, mentioned in any order
+		for _, gid := range gs {
+			if len(covered) > 0 && r.Chance(1, 3) && gid != gs[len(gs)-1] {
+				continue
+			}
+			for _, id := range groups[gid] {
+				if r.Chance(2, 3) {
+					covered = append(covered, id)
+				}
+			}
+		}
+		if len(covered) == 0 {
+			covered = []uint32{groups[gs[0]][0], groups[gs[1]][0]}
+		}
+		for i := len(covered) - 1; i > 0; i-- {
+			j := r.Intn(i + 1)
+			covered[i], covered[j] = covered[j], covered[i]
+		}
+		s.ObjSets = [][]uint32{covered}
+		v.Objects = append([]uint32(nil), covered...)
+		g.count("select:objects-across-groups")
 	case 0, 1: // everything
 		for _, gid := range gs {
 			covered = append(covered, groups[gid]...)
@@ -408,6 +433,39 @@ func scenC06(g *Gen, dir string) ([]*Op, func(e *Env, i int, op *Op, obs []strin
 			&Op{Kind: "add", T: TOpt{Kind: "det"}, DI: DI{DT: 0x4007, Fail: -1, Data: DataSpec{Lit: r.Bytes(11)}, Opts: []DIOpt{{Kind: "group", N: gid}}}})
 		g.count("pre:group-emptied-and-reused")
 		groups = nil
+	} else if gs0 := sortedGroups(groups); len(gs0) >= 2 && r.Chance(1, 5) {
+		// the lowest slot of the table is freed (it belonged to another group) and an add into a
+		// group is then refused: whatever the refused call computed about that group must be gone
+		var lo uint32
+		for _, gid := range gs0 {
+			if groups[gid][0] == 1 {
+				lo = gid
+			}
+		}
+		var into []uint32
+		for _, gid := range gs0 {
+			if gid != lo {
+				into = append(into, gid)
+			}
+		}
+		if lo != 0 && len(into) > 0 {
+			gid := pick(r, into)
+			bad := DI{DT: 0x4007, Fail: -1, Data: DataSpec{Lit: r.Bytes(5)}, Opts: []DIOpt{{Kind: "group", N: gid}}}
+			switch r.Intn(3) {
+			case 0:
+				bad.Opts = append(bad.Opts, DIOpt{Kind: "name", B: bytes.Repeat([]byte{'n'}, 129)})
+			case 1:
+				bad.Opts = append(bad.Opts, DIOpt{Kind: "md", MD: MD{Kind: "raw", B: r.Bytes(385)}})
+			default:
+				bad.Fail = 2
+			}
+			ops = append(ops, &Op{Kind: "del", Sel: Sel{Kind: "id", N: 1}, T: TOpt{Kind: "det"}}, &Op{Kind: "add", T: TOpt{Kind: "det"}, DI: bad})
+			groups[lo] = groups[lo][1:]
+			if len(groups[lo]) == 0 {
+				delete(groups, lo)
+			}
+			g.count("pre:refused-add-below-group")
+		}
 	} else if r.Chance(1, 3) {
 		gid := pick(r, sortedGroups(groups))
 		if len(groups[gid]) > 1 {
@@ -585,7 +643,20 @@ func scenC05(g *Gen, dir string) ([]*Op, func(e *Env, i int, op *Op, obs []strin
 	}
 	nsig := uint32(len(gs))
 	total := int64(nobj) + 6
-	switch k := r.Intn(13); k {
+	contentEdit := -1
+	switch k := r.Intn(15); k {
+	case 14:
+		// AddObject of an object in a new group, cut short between its table write and its header
+		// write; the file is opened again with the old header (stale free count and data size)
+		edit = "add object in a new group, interrupted before the header write, file reopened"
+		ops = append(ops, &Op{Kind: "add", T: TOpt{Kind: "det"}, DI: DI{DT: pick(r, []int32{0x4007, 0x4001}), Fail: -1, Data: DataSpec{Lit: r.Bytes(1 + r.Intn(8))}, Opts: []DIOpt{{Kind: "group", N: 7}}}},
+			&Op{Kind: "patch", Raw: []string{"tornheader"}})
+	case 13:
+		// the bytes of a signed object change in place, its descriptor untouched
+		edit = "flip a bit in the content of a signed object"
+		contentEdit = len(ops)
+		ops = append(ops, &Op{Kind: "patch", Raw: []string{"20", fmt.Sprint(total)}})
+		mustFail = false // decided when the patch is made: only if an object has content
 	case 12:
 		// a new group whose only linked signature is of the other flavour (a legacy SIFHASH
 		// clear-signature, by any key): no current-format signature covers the group
@@ -667,6 +738,9 @@ func scenC05(g *Gen, dir string) ([]*Op, func(e *Env, i int, op *Op, obs []strin
 			}
 			orig = protectedView(e.f)
 			origStruct = structureOf(e.f)
+		}
+		if i == contentEdit && op.N == 1 {
+			mustFail = true
 		}
 		if i == ver1 && orig.Objs != nil && e.f != nil && len(obs) > 0 && strings.HasPrefix(obs[0], "v ok") {
 			if mustFail {
@@ -939,6 +1013,28 @@ func fillPatch(g *Gen, op *Op, b []byte) {
 		tabEnd = len(b)
 	}
 	switch {
+	case mode == 20: // a bit inside the content of an in-use non-signature object (an OCI blob half of the time when there is one)
+		ts := parseTable(b, total)
+		var objs, blobs []tableSlot
+		for _, t := range ts {
+			if t.used && !t.sig && t.size > 0 && int(t.off)+int(t.size) <= len(b) {
+				objs = append(objs, t)
+				if b[t.o] == 0x0B && b[t.o+1] == 0x40 {
+					blobs = append(blobs, t)
+				}
+			}
+		}
+		if len(objs) == 0 {
+			return
+		}
+		t := pick(r, objs)
+		if len(blobs) > 0 && r.Chance(1, 2) {
+			t = pick(r, blobs)
+			g.count("tamper:oci-blob-content-bit")
+		}
+		op.Sites = []PatchSite{flip(int(t.off) + r.Intn(int(t.size)))}
+		op.N = 1
+		g.count("tamper:object-content-bit")
 	case mode < 2: // header bit
 		op.Sites = []PatchSite{flip(r.Intn(128))}
 		g.count("tamper:header-bit")
@@ -1791,8 +1887,22 @@ func runInteg(prop, dir string, seed uint64) (*Case, []*Violation, map[string]in
 	defer e.Close()
 	c := &Case{Seed: seed}
 	var vs []*Violation
+	var hdrBeforeAdd []byte // the header bytes as they were before the most recent add
 	for i, op := range ops {
 		cp := *op
+		if cp.Kind == "add" && e.f != nil {
+			if b := e.storeBytes(); len(b) >= 128 {
+				hdrBeforeAdd = append([]byte(nil), b[:128]...)
+			}
+		}
+		if cp.Kind == "patch" && len(cp.Sites) == 0 && len(cp.Raw) == 1 && cp.Raw[0] == "tornheader" && e.f != nil {
+			// the add just made was cut short between its descriptor-table write and its header
+			// write, and the file is opened again: new table, old header
+			if hdrBeforeAdd != nil {
+				cp.Sites = []PatchSite{{Off: 0, B: hdrBeforeAdd}}
+			}
+			cp.Raw = nil
+		}
 		if cp.Kind == "patch" && len(cp.Sites) == 0 && len(cp.CopySlot) == 2 && e.f != nil {
 			b := e.storeBytes()
 			from, to := 4096+585*cp.CopySlot[0], 4096+585*cp.CopySlot[1]
